@@ -1,4 +1,4 @@
-HOOK_COMMITS = []
+HOOK_COMMITS = ["89eb8ba", "cf2362c"]
 PENDING = "not claimed yet: the model, theorems and correspondence driver for this property are still being built in this round (see DESIGN.md Appendix D for the order of work); no technique other than Coq proof is substituted"
 CLAIMED = {
  "C03": {
